@@ -116,6 +116,8 @@ def gen_scenarios(seed, n, props):
                   strategy=rng.choice(['Best1Bin', 'Rand1Bin', 'Best1Exp', 'RandToBest1Exp', 'Best2Bin', 'Rand2Exp']),
                   install_ranges_at=rng.choice([0, 0, 0, 2, 5]) if 'C02' in props else 0,
                   install_cons_at=rng.choice([0, 0, 0, 3]) if 'C03' in props else 0)
+        # which termination condition is evaluated after every step (own generator: the other draws keep their values)
+        sc['term'] = 'gradnorm' if ('C02' in props and random.Random(sc['seed'] * 31 + 5).random() < 0.15) else 'vtr'
         out.append(sc)
     return out
 
@@ -227,7 +229,12 @@ def run_scenario(sc, props):
         s.SetPenalty(pfun)
     if sc['reducer']:
         s.SetReducer(sum, arraylike=True)
-    s.SetTermination(VTR(-1e300))
+    if sc.get('term') == 'gradnorm':
+        # never satisfied, but evaluated after every step: it estimates the gradient by finite differences of the cost
+        from mystic.termination import GradientNormTolerance
+        s.SetTermination(GradientNormTolerance(-1.0))
+    else:
+        s.SetTermination(VTR(-1e300))
     s.SetEvaluationLimits(generations=10 ** 6, evaluations=10 ** 7)
     s.SetObjective(rec)
     kw = {}
@@ -251,6 +258,10 @@ def run_scenario(sc, props):
             checked_from_c = rec.n
         n_before = rec.n
         try:
+            best_before = [float(t) for t in s.bestSolution]
+        except Exception:      # noqa
+            best_before = None
+        try:
             s.Step(**kw)
         except Exception as e:      # noqa  -- an exception is not a violation of these properties: scenario aborted
             aborted = '%s: %s at step %d' % (type(e).__name__, e, k)
@@ -266,6 +277,18 @@ def run_scenario(sc, props):
                     # which no comparison-based guard can reject
                     sub = '#nan-coordinate,infinite-side' if (any(math.isnan(t) for t in p) and
                                                               any(math.isinf(t) for t in list(L) + list(H))) else ''
+                    # known sub-case (F45): GradientNormTolerance probes the RAW cost at best + 1.5e-8 e_i, past a bound
+                    # the best solution sits on
+                    if not sub and sc.get('term') == 'gradnorm':
+                        try:
+                            bs = [float(t) for t in s.bestSolution]
+                        except Exception:      # noqa
+                            bs = None
+                        near_box = all(L[i] - 1e-6 <= p[i] <= H[i] + 1e-6 for i in range(ndim))
+                        near_best = any(b is not None and all(abs(p[i] - b[i]) <= 1e-6 * (1 + abs(b[i])) for i in range(ndim))
+                                        for b in (bs, best_before))     # Step asks the termination before AND after stepping
+                        if near_box or near_best:
+                            sub = '#termination-probes-raw-cost'
                     viol.append(('evaluated-outside-box' + sub, 'step %d point %r box %r..%r' % (k, p, L, H)))
                     break
         # ---- C03: constraints hold at every evaluation
